@@ -270,6 +270,21 @@ impl Property for C01 {
             if r.is_ok() {
                 o.class("positive:accepted");
             }
+            // the same owners sign a *link*; handed to the verifier in place of a layout it must not be enforced
+            if spec.signed_mask % 4 == 0 {
+                if let Some(f) = spec.world.links.iter().find_map(|f| if let Body::Link { link, .. } = &f.body { Some(link.clone()) } else { None }) {
+                    let sigs: Vec<SigEntry> = caller_keys.iter().map(SigEntry::good).collect();
+                    let (text, _) = signed_text(&in_toto::models::MetadataWrapper::Link(f.to_lib()), &sigs, &None);
+                    let fake = MatInfo { layout_text: text, ..Default::default() };
+                    let ldir = env.fresh_dir("c01l");
+                    if let Some(Ok(_)) = run_verify(&fake, &caller, &ldir, None) {
+                        o.fail("C01/accepted/link-in-place-of-layout", "in_toto_verify = Ok for a validly signed link block", "Err: there is no layout content to enforce");
+                    }
+                    let _ = std::fs::remove_dir_all(&ldir);
+                    o.class("link-in-place-of-layout");
+                    o.evals += 1;
+                }
+            }
         }
         let _ = std::fs::remove_dir_all(&dir);
         o
